@@ -76,6 +76,17 @@ for _pre, _place in ((_TC, "c[0]"), (_ST, "st.S"), (_PT, "*pt")):
                        _pre + "switch %s[0] {\ncase %s:\n 1\n}" % (_place, _SH % (_place + " = " + _new, "1")), _pre + "x, y = %s[1], %s" % (_place, _SH % (_place + " = " + _new, "1")),
                        _pre + "vg(%s[1]) + vg(%s)" % (_place, _SH % (_place + " = " + _new, "1")), _pre + "{%s[1]: %s}" % (_place, _SH % (_place + " = " + _new, "1")), _pre + "[%s[1], %s, %s[0]]" % (_place, _SH % (_place + " = " + _new, "1"), _place)]
 
+# the zero value of a named module type (a nil module), NaN as a map key, typed slices of the wrong length for an array parameter
+_NM = "module m { x = 1 }\nmake(type M, m)\nms = make([]M, 1)\n"
+DEGENERATE += [_NM + t for t in ("ms[0].x", "ms[0].x = 1", "y = ms[0]\ny", "var y = ms[0]\ny", "for q in ms {\n q.x\n}", "ms[0].f()", "z = make(M)\nz.x", "z = make(M)\nz.x = 2", "z = make(M)\nw = z\nw", "make(ms[0].T)",
+                                "for q in ms {\n make(q.T)\n}", "for q in ms {\n []q.T{1}\n}", "for q in ms {\n make(chan q.T)\n}", "p = new(M)\n(*p).x", "delete(\"m\")\nm.x", "f = func(a) { return a.x }\nf(ms[0])", "[ms[0]][0].x", "ms[0] == nil")]
+_NAN = "nan = 0.0 / 0.0\n"
+DEGENERATE += [_NAN + t for t in ("a = make([]map[float64]int64, 1)\na[0][nan] += 1", "a = make([]map[float64]int64, 1)\na[0][nan] = 1\na[0][nan]", "m = {}\nm[nan] = 1\n[m[nan], len(m)]", "m = make(map[float64]int64)\nm[nan] += 1\nm",
+                                 "m = {}\nm[nan] = 1\ndelete(m, nan)\nlen(m)", "m = {}\nm[nan] = 1\nfor k, v in m {\n x = [k, v]\n}", "m = {}\nm[nan] = 1\nv, ok = m[nan]\n[v, ok]", "m = {nan: 1, nan: 2}\nlen(m)", "nan in [nan]",
+                                 "switch nan {\ncase nan:\n 1\n}", "m = map[float64]string{nan: \"a\"}\nm[nan]", "m = {}\nm[nan] = {}\nm[nan].k = 1", "m = {}\nm[[nan]] = 1")]
+DEGENERATE += ["ga3(make([]int64, 1))", "ga3(make([]int64, 3))", "ga3(make([]int64, 9))", "ga3(vtl)", "ga3(make([]float64, 2))", "ga3(make([]string, 1))", "ga3(vtl[0:1])", "ga3(vnill)", "x = make([]int64, 1)\nga3(x)", "go ga3(make([]int64, 1))",
+               "defer ga3(make([]int64, 1))\n1", "func() { defer ga3(make([]int64, 1)) }()", "try { ga3(make([]int64, 1)) } catch e { 1 }", "ga3(make([]int64, 1)...)"]
+
 # limits of the reflect package reached by plain source text: many parameters, wide struct types as element / key / channel types
 def _wide(n): return "struct { " + ", ".join("F%d string" % i for i in range(n)) + " }"
 DEGENERATE += ["f = func(" + ", ".join("a%d" % i for i in range(n)) + ") { return 1 }\n1" for n in (5, 64, 126, 127, 128, 130, 300)]
